@@ -93,6 +93,15 @@ def _inputs(ctx):
     rng = ctx.rng
     items = []
     cs = curves.adversarial()
+    # the adversarial curves (collinear runs, plateaus, rounding residue at chord ends) at EVERY size: a reduction with a
+    # repeated index is still a reduction the mapping is applied to
+    for ci, P in enumerate(cs):
+        n = len(P)
+        for k in range(2, n + 2):
+            for d, o in (("shortest", "triangle"), ("perpendicular", "segment")):
+                items.append(("a%d-%d-%s" % (ci, k, d), P.tolist(), {"f": "rdp_fixed", "length": k, "distance": d, "order": o}, rng.randrange(1 << 30)))
+        items.append(("a%d-mp" % ci, P.tolist(), {"f": "mp_grdp", "t": 0.5, "distance": "shortest", "cost": "smape", "order": "segment", "min_points": n},
+                      rng.randrange(1 << 30)))
     nrand = 150 if ctx.quick else 1500
     cs += [curves.random_curve(rng, 3, 40) for _ in range(nrand)]
     cs += curves.trace_windows(rng, 10 if ctx.quick else 80, names=("web0_reduced.csv", "usr0.csv"))
